@@ -259,6 +259,20 @@ impl<StorageT: PrimInt> Rule<StorageT> {
         target_state: Option<(usize, StartStateOperation)>,
         lex_flags: &LexFlags,
     ) -> Result<Rule<StorageT>, regex::Error> {
+        // The user's regex must be well formed on its own: spliced into `\A(?:..)` below, an
+        // unbalanced `)` would end the wrapper early and leave an unanchored alternative.
+        let mut re_parser = regex_syntax::ast::parse::ParserBuilder::new();
+        re_parser.octal(lex_flags.octal.unwrap());
+        if let Some(flag) = lex_flags.ignore_whitespace {
+            re_parser.ignore_whitespace(flag);
+        }
+        if let Some(lim) = lex_flags.nest_limit {
+            re_parser.nest_limit(lim);
+        }
+        re_parser
+            .build()
+            .parse(&re_str)
+            .map_err(|e| regex::Error::Syntax(e.to_string()))?;
         let mut re = RegexBuilder::new(&format!("\\A(?:{})", re_str));
         let mut re = re
             .octal(lex_flags.octal.unwrap())
